@@ -39,7 +39,10 @@ def _resolve_names(definition_names, avoid_names=()):
             yield name
 
         if name.api_type == 'module':
-            yield from _resolve_names(name.goto(), definition_names)
+            yield from _resolve_names(
+                name.goto(),
+                tuple(avoid_names) + tuple(definition_names)
+            )
 
 
 def _dictionarize(names):
